@@ -9,6 +9,7 @@ import os
 import struct
 import vlib
 import lit_ops
+import const_e2e
 import runtime_ops as ro
 from common import prove, leanchecker
 
@@ -97,6 +98,33 @@ def run(tier):
                                       f"{t}.const {b:#x} is written as `{lits[i]}`, which {cc} {' '.join(opts)} compiles to {got[j]:#x}",
                                       {"type": t, "bits": "%x" % b, "literal": lits[i], "compiled_bits": "%x" % got[j], "compiler": cc + " " + " ".join(opts)}, True)
             chk.coverage["roundtrip_cases"] = len(ok)
+        # the whole pipeline: reader (LEB128 / float immediates of every length, minimal and padded) -> literal -> compiler
+        try:
+            pipe = []
+            for t, b in cases:
+                if t[0] == "i":
+                    pipe.append((t, b, 0))
+                    if len(pipe) % 3 == 0:
+                        pipe.append((t, b, 1 + (b % 9)))
+            fl = [c for c in cases if c[0][0] == "f"]
+            step = max(1, len(fl) // (400 if tier == "quick" else 4000))
+            pipe += [(t, b, 0) for t, b in fl[::step]]
+            got, ctext = const_e2e.run(repo, d, pipe)
+            npipe = len(pipe)
+            lens = {}
+            for k, (t, b, pad) in enumerate(pipe):
+                if t[0] == "i":
+                    L = len(const_e2e.imm(t, b, pad))
+                    lens[f"{t}:leb{L}"] = lens.get(f"{t}:leb{L}", 0) + 1
+                for via, v in (("function body", got[k]), ("global initialiser", got[npipe + k])):
+                    if v != b:
+                        chk.violation(f"{t}-const-pipeline",
+                                      f"{t}.const {b:#x} (immediate bytes {const_e2e.imm(t, b, pad).hex()}, in a {via}) comes out of the real w2c2 + gcc as {v:#x}",
+                                      {"type": t, "bits": "%x" % b, "pad": pad, "via": via, "got": "%x" % v, "kind": "pipeline"}, True)
+            chk.coverage["pipeline_cases"] = npipe
+            chk.coverage["pipeline_leb_lengths"] = lens
+        except Exception as e:
+            broken.append({"kind": "const-pipeline", "msg": str(e)[-800:]})
         chk.coverage["class_histogram"] = hist
         chk.coverage["rule"] = ("constants: integer boundary sets; float boundary sets; every single-payload-bit NaN of both signs; every f32 exponent and a "
                                 "stride of f64 exponents × {min,max,random} mantissa; seeded random patterns; case = (type, bit pattern); compared: real wasmCWriteLiteral text vs "
@@ -119,6 +147,10 @@ def replay(path):
         repo = vlib.copy_repo(os.path.join(d, "repo"))
         exe = lit_ops.build(repo, d)
         c = (r["type"], int(r["bits"], 16))
+        if r.get("kind") == "pipeline":
+            got, _ = const_e2e.run(repo, d, [(c[0], c[1], r.get("pad", 0))])
+            print(f"replay pipeline {c[0]}.const {c[1]:#x} pad {r.get('pad', 0)}: got {got[0]:#x} (function), {got[1]:#x} (global)")
+            return 0 if got[0] == c[1] and got[1] == c[1] else 1
         text = lit_ops.texts(exe, [c])[0][5:]
         got = lit_ops.compile_roundtrip(repo, d, [c], [text])[0]
     print(f"replay {c[0]}.const {c[1]:#x}: literal `{text}` compiles to {got:#x}")
